@@ -1,7 +1,7 @@
 (* Cesium/TruthProofs.v — the stored content [layout_assoc] of a well-formed layout: its stamps
    lie in the ranges of the data domains and ascend; reading adjacent ranges concatenates. *)
 From Coq Require Import ZArith List Bool Lia Sorting.Sorted.
-From Synnax Require Import Cesium.Store Cesium.StoreProofs Cesium.IndexSearchProofs Cesium.DomIterProofs
+From Synnax Require Import Cesium.LayoutOk Cesium.Store Cesium.StoreProofs Cesium.IndexSearchProofs Cesium.DomIterProofs
      Cesium.DistanceProofs Cesium.UnaryIterExact Cesium.SliceProofs Cesium.UnaryIterSpec Cesium.Read.
 Import ListNotations.
 Local Open Scope Z_scope.
@@ -33,26 +33,35 @@ Proof.
     + apply C; [left; reflexivity|exact Hx].
 Qed.
 
-Lemma layout_assoc_asc P D : ilay P -> lay D -> asc (layout_assoc P D).
+Lemma iwf_stamps q x : iwf q -> In x (d_data q) -> t_s (d_tr q) <= x < t_e (d_tr q).
+Proof. intros [_ F] H. rewrite Forall_forall in F. apply F, H. Qed.
+
+Lemma inc_app l1 l2 : inc l1 -> inc l2 -> (forall x y, In x l1 -> In y l2 -> x < y) -> inc (l1 ++ l2).
+Proof.
+  intros A B C. induction A as [|x l1 A IHA FA]; [exact B|]. cbn [app]. constructor.
+  - apply IHA. intros u w Hu Hw. apply C; [right; exact Hu|exact Hw].
+  - apply Forall_forall. intros u Hu. apply in_app_or in Hu. destruct Hu as [Hu|Hu].
+    + rewrite Forall_forall in FA. apply FA, Hu.
+    + apply C; [left; reflexivity|exact Hu].
+Qed.
+
+(* all stamps of a well-formed index ascend *)
+Lemma ilay_inc_stamps P : ilay P -> inc (stamps_of P).
+Proof.
+  intros [[W S] I]. clear W. unfold stamps_of. induction P as [|q P' IH]; [constructor|].
+  cbn [map concat]. apply Forall_cons_iff in I. destruct I as [Iq I'].
+  inversion S as [|? ? S' F]; subst.
+  apply inc_app; [apply Iq|apply IH; assumption|].
+  intros x y Hx Hy. apply in_concat in Hy. destruct Hy as (l & Hl & Hy). apply in_map_iff in Hl.
+  destruct Hl as (q' & <- & Hq'). rewrite Forall_forall in F, I'.
+  pose proof (iwf_stamps q x Iq Hx). pose proof (iwf_stamps q' y (I' q' Hq') Hy).
+  specialize (F q' Hq'). unfold dbefore in F. lia.
+Qed.
+
+Lemma layout_assoc_asc P D : inc (stamps_of P) -> lay D -> asc (layout_assoc P D).
 Proof.
   intros HP HD. unfold layout_assoc.
-  assert (IQ : forall d, inc (stamps_in (d_tr d) (stamps_of P))).
-  { intros d. apply inc_filter.
-    (* all stamps of the index ascend *)
-    destruct HP as [[W S] I]. clear W. unfold stamps_of. induction P as [|q P' IH]; [constructor|].
-    cbn [map concat]. apply Forall_cons_iff in I. destruct I as [Iq I'].
-    inversion S as [|? ? S' F]; subst.
-    assert (IncApp : forall l1 l2, inc l1 -> inc l2 -> (forall x y, In x l1 -> In y l2 -> x < y) -> inc (l1 ++ l2)).
-    { intros l1 l2 A B C. induction A as [|x l1 A IHA FA]; [exact B|]. cbn [app]. constructor.
-      - apply IHA. intros u w Hu Hw. apply C; [right; exact Hu|exact Hw].
-      - apply Forall_forall. intros u Hu. apply in_app_or in Hu. destruct Hu as [Hu|Hu].
-        + rewrite Forall_forall in FA. apply FA, Hu.
-        + apply C; [left; reflexivity|exact Hu]. }
-    apply IncApp; [apply Iq|apply IH; assumption|].
-    intros x y Hx Hy. apply in_concat in Hy. destruct Hy as (l & Hl & Hy). apply in_map_iff in Hl.
-    destruct Hl as (q' & <- & Hq'). rewrite Forall_forall in F, I'.
-    pose proof (iwf_stamps q x Iq Hx). pose proof (iwf_stamps q' y (I' q' Hq') Hy).
-    specialize (F q' Hq'). unfold dbefore in F. lia. }
+  assert (IQ : forall d, inc (stamps_in (d_tr d) (stamps_of P))) by (intros d; apply inc_filter; exact HP).
   destruct HD as [W S]. induction D as [|d D IH]; [constructor|].
   cbn [flat_map]. apply Forall_cons_iff in W. destruct W as [Wd W']. inversion S as [|? ? S' F]; subst.
   apply asc_app.
